@@ -8,9 +8,31 @@ from streams import docs
 
 OFF = {"o_c01": 1, "o_c04": 2, "o_c05": 1, "o_exp": 2, "o_c09": 2, "o_rt": 1, "o_b2c": 1}
 
+def class_edge_case(rng):
+    """a byte just outside a scanner's character class directly before/after a keyword or numeral, delivered byte by
+    byte or in small pieces: the 8-byte fast paths and the byte-wise cold paths must classify it alike"""
+    parser = rng.choice(["btor2", "btor2", "cnf", "aag", "log"])
+    parser, ty, flags, data, _ = docs.gen_doc(rng, parser=parser, valid_only=True)
+    b = bytearray(data)
+    starts = [i for i in range(len(b)) if (97 <= b[i] <= 122 or 48 <= b[i] <= 57) and (i == 0 or not (97 <= b[i - 1] <= 122 or 48 <= b[i - 1] <= 57))]
+    if starts:
+        i = rng.choice(starts)
+        j = i
+        while j < len(b) and (97 <= b[j] <= 122 or 48 <= b[j] <= 57):
+            j += 1
+        at = rng.choice([i, j, j, rng.randrange(i, j + 1)])
+        b[at:at] = bytes([rng.choice([0x7b, 0x7b, 0x60, 0x2f, 0x3a, 0x40, 0x5b])])
+    data = bytes(b)
+    evs = rng.choice([",".join(["d1"] * (len(data) + 1)), ",".join("d%d" % rng.choice([1, 2, 3, 7]) for _ in range(len(data) + 2))])
+    return "o_c01 " + docs.setup(parser, ty, flags, data, (evs, 0, rng.choice([1, 3, 7, 16384]), "r"))
+
+
 def gen_chunk(rng, n):
     out = []
     for _ in range(n):
+        if rng.random() < 0.06:
+            out.append(class_edge_case(rng))
+            continue
         parser, ty, flags, data, _ = docs.gen_doc(rng)
         if parser in ("aag", "aig") and rng.random() < 0.3:
             flags = "w"
